@@ -45,27 +45,26 @@ def replay_all(sessions, procs):
 
 
 def key_of(sess, m):
-    """Stable, specific key of one mismatch."""
+    """Stable, specific key of one mismatch: what differs and how (binding classes spec->code), not where."""
     what = m["what"]
     if m["step"] < 0:
         return f"{what}: {str(m['code'])[:120]}"
-    st = sess["steps"][m["step"]]
-    ctxt = f"outcome={st['outcome']}"
+    ctxt = f"after a compile() that ended '{sess['steps'][m['step']]['outcome']}'"
     if what == "namespaces after compile()":
-        d = sorted({f"{n}:{m['spec'][mod][n]}->{m['code'][mod][n]}" for mod in m["spec"] for n in m["spec"][mod]
+        d = sorted({f"{m['spec'][mod][n]}->{m['code'][mod][n]}" for mod in m["spec"] for n in m["spec"][mod]
                     if m["spec"][mod][n] != m["code"][mod][n]})
-        return f"{what} [{ctxt}]: {', '.join(d)}"
+        return f"{what} {ctxt}: {', '.join(d)}"
     if what == "module __dict__ after compile()":
-        d = sorted({x.split(".", 1)[-1] for x in m["code"]})
-        return f"{what} [{ctxt}]: {', '.join(d)[:200]}"
+        d = sorted({x.split(": ", 1)[-1] for x in m["code"]})
+        return f"{what} {ctxt}: {', '.join(d)[:200]}"
     if what == "outcome":
         return f"outcome: spec {m['spec']} code {str(m['code'])[:100]}"
     if what == "in-body observation":
         s, c = m["spec"], m["code"]
         if s and c and s["tag"] == c["tag"]:
-            d = sorted({f"{n}:{s['g'][mod][n]}->{c['g'][mod][n]}" for mod in s["g"] for n in s["g"][mod]
+            d = sorted({f"{s['g'][mod][n]}->{c['g'][mod][n]}" for mod in s["g"] for n in s["g"][mod]
                         if s["g"][mod][n] != c["g"][mod][n]})
-            return f"{what} at rec(f,{s['tag'][1]}): {', '.join(d)}"
+            return f"{what} at rec(f,{s['tag'][1]}) in compile #{m['step'] + 1}: {', '.join(d)}"
         return f"{what}: order of traces differs (spec {s and s['tag']} code {c and c['tag']})"
     return what
 
@@ -135,8 +134,8 @@ def run(ctx):
 
     groups = {}
     for sess, ms in allbad:
-        for m in ms:
-            groups.setdefault(key_of(sess, m), []).append((sess, m))
+        m = min(ms, key=lambda x: x["step"])  # earliest mismatch of the session
+        groups.setdefault(key_of(sess, m), []).append((sess, m))
     for key, cases in sorted(groups.items()):
         sess, m = min(cases, key=lambda c: len(json.dumps(c[0])))
         small = {k: sess[k] for k in ("place", "bind", "script")} | {"entries": [st["entry"] for st in sess["steps"]]}
